@@ -153,7 +153,7 @@ fn glob(pat: &str, s: &str) -> bool {
 enum Job {
     Seeded(u64),
     /// re-execution of a seeded run with the at-th signing call of (node, slot 0) failing
-    SignerFault { seed: u64, node: u8, at: u64 },
+    SignerFault { seed: u64, node: u8, slot: u8, at: u64 },
     Workload(workloads::Item),
 }
 
@@ -168,9 +168,9 @@ fn run_job(prop: &str, thorough: bool, job: &Job, keep_log: bool) -> JobOut {
             let (trace, res) = run::run_seeded(prop, *seed, thorough, keep_log);
             JobOut { trace, res }
         }
-        Job::SignerFault { seed, node, at } => {
+        Job::SignerFault { seed, node, slot, at } => {
             let (mut trace, _) = run::run_seeded(prop, *seed, thorough, false);
-            trace.events.insert(0, world::Event::ArmAbs { node: *node, slot: 0, at: *at });
+            trace.events.insert(0, world::Event::ArmAbs { node: *node, slot: *slot, at: *at });
             trace.workload = "signer-fault-enumeration".into();
             let res = run::exec(&trace.nodes, &trace.events, trace.seed, prop, keep_log).expect("same set-up");
             JobOut { trace, res }
@@ -255,7 +255,15 @@ fn run_parallel(prop: &str, thorough: bool, jobs: &[Job], workers: usize, journa
                 }
                 inflight_job[wk].store(i, Ordering::SeqCst);
                 inflight[wk].store(t0.elapsed().as_millis() as u64 + 1, Ordering::SeqCst);
-                let out = std::panic::catch_unwind(std::panic::AssertUnwindSafe(|| run_job(&prop, thorough, &jobs[i], false)));
+                // every job runs on a thread of its own: thread-local state inside the library (or its
+                // dependencies) cannot leak from one run into the next, so one seed stays one execution
+                let out = std::thread::scope(|sc| {
+                    std::thread::Builder::new()
+                        .stack_size(16 << 20)
+                        .spawn_scoped(sc, || run_job(&prop, thorough, &jobs[i], false))
+                        .expect("spawn")
+                        .join()
+                });
                 inflight[wk].store(0, Ordering::SeqCst);
                 if let Some(j) = journal.as_mut() {
                     let _ = writeln!(j, "done {i}");
@@ -352,9 +360,11 @@ fn cmd_check(a: &[String]) -> i32 {
         for i in 0..sample.min(n_seeded) {
             if let Job::Seeded(seed) = jobs[i] {
                 let (_, res) = run::run_seeded(&prop, seed, args.thorough, false);
-                for (node, calls) in res.sign_calls.iter().enumerate() {
-                    for at in 1..=(*calls).min(60) {
-                        extra.push(Job::SignerFault { seed, node: node as u8, at });
+                for (node, slots) in res.sign_calls.iter().enumerate() {
+                    for (slot, calls) in slots.iter().enumerate() {
+                        for at in 1..=(*calls).min(60) {
+                            extra.push(Job::SignerFault { seed, node: node as u8, slot: slot as u8, at });
+                        }
                     }
                 }
             }
